@@ -19,12 +19,18 @@ CLAIMS = {
             "Decides the cache-invalidation discipline that history-independence needs: every persistent cache store has an invalidation path, every invalidation entry point (train/eval switch, load_state_dict, set_train_data, training-mode variational call) clears on every path, overrides chain, and memo entries that depend on settings or ignore their arguments are keyed or validated by every consumer. For all histories through those constructs; does not decide numerical equality with a fresh model."),
     "C04": ("save/null/restore pairing, effect confinement and concatenation-order analysis (ast)",
             "Decides 'source untouched' structurally: attributes nulled around deepcopy are restored on every normal path from the captured locals, the fantasy path writes only to objects it created, and old data/noise are concatenated before new. Does not decide the Schur-complement numerics."),
+    "C05": ("composition-clause analysis of Additive/Product/Scale/LCM kernels (ast)",
+            "Decides ONLY the composition clause of C05 ('sums, products and scalings of kernels evaluate to the sums, products and scalings of their parts'): Additive/Product kernels combine every member kernel, evaluated through __call__ on the same (x1, x2, diag, **params), with + / * and nothing else; k1 + k2 / k1 * k2 pass both operands; ScaleKernel is base value x constrained outputscale; LCMKernel sums all member multitask kernels. The covariance formulae of the individual kernels and the derivative kernels are equalities of real-valued functions and are NOT decided."),
     "C06": ("who-may-apply active_dims, shape-prefix domain, constructor-completeness at lazy re-construction sites (ast)",
             "Decides the active_dims discipline (single application point, no bypass of Kernel.__call__ without taking over the member's active_dims, never batch-transformed, temporary nulling restored), completeness of every LazyEvaluatedKernelTensor re-construction and the transpose swap. Does not decide numerical equality of diag/full paths."),
     "C07": ("clamp-on-every-return-path and lower-bounded-constraint analysis (ast)",
             "Decides the lower-bound clauses only: every variance of the MultivariateNormal hierarchy reaches the caller through the min_variance clamp, squared distances through clamp_min(0), fixed noise through min_fixed_noise, every learned noise has a lower-bounded default constraint. Does not decide PSD-ness."),
     "C08": ("shape-prefix domain on registrations, reduction-axis lint, container routing (ast)",
             "Decides batch-shape discipline: parameters of kernels/means/noise models are registered with a *batch_shape prefix, reductions in forward use negative dims, list containers route member i to argument i and average by len. Does not decide value equality with replicas."),
+    "C09": ("operand-provenance analysis of Kronecker products against the layout convention; IndexKernel representation agreement (ast)",
+            "Decides ONLY the abbreviation-structure clauses of C09: the Kronecker product in MultitaskKernel is K_data (x) K_task (the interleaved layout of the multitask distribution) and the multitask likelihood's noise is I_n (x) D_t when interleaved and D_t (x) I_n otherwise; IndexKernel's dense form B B^T + diag(v) and operator form Root(B) + Diag(v) use the same factor and constrained variance, rows i1 / columns i2; MultitaskKernel evaluates the data kernel on (x1, x2). Equality of structured and dense linear algebra, SGPR/KISS-GP/RFF predictive equations and interpolation accuracy are numerical and NOT decided."),
+    "C10": ("affine-form abstract interpretation of MultivariateNormal arithmetic; structural index-agreement check (ast)",
+            "Decides ONLY the arithmetic/indexing clause of C10: X+Y -> (m+m', C+C'), X+c -> (m+c, C), X*c -> (cm, c^2 C), X/c = X*(1/c), add_jitter changes the covariance only, confidence_region = mean -/+ 2 stddev, __getitem__ applies the event index to the mean and to both covariance axes, expand/unsqueeze act on both alike. log_prob, KL, rsample and sample moments are numerical and NOT decided."),
     "C11": ("stride-unit type system for the flattened index arithmetic, layout-twin table (ast)",
             "Decides that the flattened-index arithmetic of MultitaskMultivariateNormal.__getitem__ is stride-unit consistent and that every layout-sensitive accessor has the non-interleaved twin. Does not decide log_prob values."),
     "C12": ("affine additive-once form, keyword-flow to noise models, list routing (ast)",
@@ -46,9 +52,6 @@ CLAIMS = {
 }
 
 NOT_APPLICABLE = {
-    "C05": "kernel values equal documented covariance functions: an equality of real-valued functions for all inputs/hyperparameters; no clause is visible in code shape except formula text, and matching formula text would alarm on every algebraically equivalent rewrite (active_dims/composition clauses are decided under C06)",
-    "C09": "equality of structured and dense linear algebra and convergence of interpolation are numerical; the only structural facet (which strategy class a kernel selects) is not a necessary condition because the default strategy is also correct",
-    "C10": "densities, KL, sampling moments and marginalisation by indexing are numerical identities over broadcast shapes; the index dispatch of MultivariateNormal.__getitem__ has no unit structure to type (unlike C11)",
     "C13": "quadrature exactness, the probit identity and log-Phi accuracy are numerical analysis of node/weight tables and piecewise approximations; nothing in code shape decides them",
 }
 
